@@ -4,7 +4,7 @@ from __future__ import annotations
 
 from .. import gen, probe, spec
 from ..probe import violation
-from .common import call, grow_while_asking, use_as_input_of_derivations
+from .common import scale_leg, call, grow_while_asking, use_as_input_of_derivations
 from .c03 import make_prefix_free
 
 PROP = "C06"
@@ -29,6 +29,7 @@ ASSUMPTIONS = ["reference model rtmon.spec.SpecConverter"]
 
 def run_case(ctx, g, rng):
     api, S = ctx.api, probe.S
+    scale_leg(ctx, rng, rng.choice([":", ":", "/", "::"]), modes=False, g=g)
     d = rng.choice(gen.DELIMS)
     recs = gen.records(rng, d, 1, 5)
     if g % 2 == 0:
